@@ -61,7 +61,7 @@ func (s *Scen) hash() uint64 {
 
 var injectClasses = []string{
 	"remove-full", "late-hook-add", "stop-pool", "drop", "late-hook-sub", "stop-lc", "remove-early", "stall",
-	"stop-prs", "late-free", "remove-eager", "stop-pool-relay", "drop-relay", "late-relay", "release",
+	"stop-prs", "late-free", "remove-eager", "stop-pool-relay", "drop-relay", "late-relay", "drop-backpressured", "release",
 }
 
 func genTargeted(rng *vh.Rng, n int, maxAt int) []TSpec {
@@ -147,6 +147,22 @@ func genInject(rng *vh.Rng, class string, sc *Scen, thorough bool) (Round, bool)
 		in.Reconnect = thorough && rng.Chance(1, 12)
 		if class == "drop-relay" {
 			in.Sel = -1 - rng.Intn(len(sc.Relays)) // negative: a relay
+		}
+	case "drop-backpressured":
+		// the waiter stops reading, every collector sends a long burst: the queues of every connection fill
+		// up (result channel 10, reader 10, connection 10); then one such connection is dropped
+		if !hasRemote {
+			return rd, false
+		}
+		in.Kind = rng.PickS("drop", "drop", "stop-prs")
+		in.Side = rng.PickS("client", "server", "both")
+		in.Rst = rng.Bool()
+		rd.Reader, rd.LazyAfter = "lazy", rng.Intn(4)
+		rd.Burst = rng.Range(24, 32)
+		in.AtMs = rng.Range(1000, 1300)
+		rd.RemovePause = true
+		if hasRelay && rng.Bool() {
+			in.Sel = -1 - rng.Intn(len(sc.Relays))
 		}
 	case "stall":
 		if !hasRemote {
